@@ -24,6 +24,10 @@ def run_one(patch, benign):
             v = [l for l in q.stdout.split('\n') if l.startswith('VIOLATION')]
             fired[prop] = {'rc': q.returncode, 'violations': len(v), 's': round(time.time() - t0, 1),
                            'first': '\n'.join(q.stdout.split('\n')[:6])[:900] if v or q.returncode not in (0, 1) else ''}
+            if q.returncode != 0 and not v:
+                # a check that exits non-zero without a VIOLATION line did not decide anything: keep what it said
+                fired[prop]['rc'] = q.returncode if q.returncode != 1 else 3
+                fired[prop]['first'] = (q.stdout[-600:] + '\n--- stderr ---\n' + q.stderr[-1500:])
         res['fired'] = fired
         if benign:
             res['status'] = 'OK' if all(f['rc'] == 0 for f in fired.values()) else 'FALSE-ALARM'
